@@ -61,7 +61,7 @@ pub struct Local {
     pub errpos_other: u64,
     pub buffered: u64,
     pub cfg_seen: [u64; 128],
-    pub by_src: [u64; 9],
+    pub by_src: [u64; 10],
 }
 impl Default for Local {
     fn default() -> Self {
@@ -74,7 +74,7 @@ impl Default for Local {
             errpos_other: 0,
             buffered: 0,
             cfg_seen: [0; 128],
-            by_src: [0; 9],
+            by_src: [0; 10],
         }
     }
 }
@@ -121,7 +121,7 @@ impl Local {
         }
         for (i, n) in self.by_src.iter().enumerate() {
             let names = [
-                "bytes", "tokens", "pool", "grammar", "mutant", "truncation", "corpus", "corpus_truncation", "random",
+                "bytes", "tokens", "pool", "grammar", "mutant", "truncation", "corpus", "corpus_truncation", "random", "scale",
             ];
             ctx.add(&format!("cases.{}", names[i]), *n);
         }
@@ -240,6 +240,15 @@ pub fn check_case(ctx: &mut Ctx, loc: &mut Local, input: &[u8], cfg: &CfgHist, s
         loc.buffered += 1;
         r = guarded(|| lockstep_buffered(input, cfg, 1 + (h % 3) as usize, loc)).unwrap_or_else(Err);
     }
+    // long inputs also in long pieces (whole pieces inside one value, text, comment, ...)
+    if r.is_ok() && src == Src::Scale {
+        for piece in crate::gen::SCALE_PIECES {
+            if *piece < input.len() && r.is_ok() {
+                loc.buffered += 1;
+                r = guarded(|| lockstep_buffered(input, cfg, *piece, loc)).unwrap_or_else(Err);
+            }
+        }
+    }
     if let Err(d) = r {
         ctx.violation(case_json(input, cfg), d);
         return !ctx.full();
@@ -288,6 +297,7 @@ fn run(ctx: &mut Ctx) {
         corpus: true,
         corpus_truncs: t.pick(16, 64),
         random_atoms: t.pick(500_000, 5_000_000),
+        scale_max: 8192,
         ..Plan::default()
     };
     for_each_input(ctx, &plan, &mut |ctx, input, src, r| {
